@@ -116,6 +116,22 @@ class _CutIter:
         cut.entry = self.entry
         return cut.inv(state, j, i)
 
+    def _frame_guard(self, ctx, cut, containers=True):
+        """everything one iteration hands to the next must be cut state (see the end of this module)"""
+        node = _for_node(self.frame)
+        if node is None:
+            ctx.unsupported_here("loop cut %s: the `for` statement was not found in the source" % cut.name)
+        names = [n for n in carried_names(node) if n not in getattr(cut, "carried_ok", ())]
+        if names:
+            ctx.unsupported_here("loop cut %s: local(s) %s carry a value from one iteration to the next outside the cut's invariant" % (cut.name, ", ".join(names)))
+        self.marks = _container_marks(dict(self.frame.f_locals), self.state) if containers else None
+
+    def _frame_check(self, ctx, cut):
+        if getattr(self, "marks", None):
+            ch = _changed_containers(self.marks, self.state)
+            if ch:
+                ctx.unsupported_here("loop cut %s: the iteration changed container(s) %s that are not part of the cut's state" % (cut.name, ", ".join(ch)))
+
     def __next__(self):
         ctx = cur()
         seq, cut = self.seq, self.seq.cut
@@ -135,6 +151,7 @@ class _CutIter:
                 if not hasattr(ctx, "ghost"):
                     ctx.ghost = {}
                 ctx.ghost.setdefault("cut_index", {})[cut.name] = j
+                self._frame_guard(ctx, cut, containers=False)
                 _hook('pre_hook', cut.pre_hook, self.frame.f_locals, j)
                 self.state = _hook('select_state', cut.select_state, self.frame.f_locals)
                 if self.state:
@@ -143,6 +160,7 @@ class _CutIter:
             self.state = _hook('select_state', cut.select_state, self.frame.f_locals)
             if not self.state and not getattr(cut, "stateless", False):
                 ctx.unsupported_here("loop cut %s: no loop-carried state found" % cut.name)
+            self._frame_guard(ctx, cut)
             snap = _snapshot(self.state)
             n = cut.length_of(snap)
             entry = self.entry
@@ -164,6 +182,7 @@ class _CutIter:
             return seq.at(j)
         if self.phase == 1:
             self.phase = 2
+            self._frame_check(ctx, cut)
             if getattr(cut, "pre_hook", None):
                 self.state = _hook('select_state', cut.select_state, self.frame.f_locals)
             if getattr(cut, "step", None):
@@ -182,3 +201,201 @@ class _CutIter:
                 _havoc(ctx, self.state, cut, seq.K, "post", self._inv)
             raise StopIteration
         raise StopIteration
+
+
+# ------------------------------------------------------------------ frame of the loop body
+# The cut is sound only if everything one iteration hands to the next is part of the havocked state.
+# Two guards make that an obligation of every run instead of an assumption about the code:
+#   * carried names (static, on the source of the running `for` statement): a local that is assigned in
+#     the body and may be read in the body before it is assigned carries a value from one iteration to
+#     the next (or from before the loop into a later iteration) - the single symbolic iteration would see
+#     the pre-loop value only.  Unless the cut declares the name as handled, the case is undecided.
+#   * mutated containers (dynamic, on the symbolic iteration): a list / dict / set / model array that
+#     existed before the loop, is not part of the declared state and was changed by the iteration.
+import ast as _ast  # noqa: E402
+
+_FOR_CACHE = {}
+
+
+def _for_node(frame):
+    code = frame.f_code
+    key = (code.co_filename, frame.f_lineno)
+    if key in _FOR_CACHE:
+        return _FOR_CACHE[key]
+    try:
+        tree = _ast.parse(open(code.co_filename).read())
+    except (OSError, SyntaxError):
+        _FOR_CACHE[key] = None
+        return None
+    best = None
+    for n in _ast.walk(tree):
+        if isinstance(n, _ast.For) and n.lineno <= frame.f_lineno <= getattr(n.iter, "end_lineno", n.lineno):
+            if best is None or n.lineno >= best.lineno:
+                best = n
+    _FOR_CACHE[key] = best
+    return best
+
+
+def _target_names(t):
+    return {n.id for n in _ast.walk(t) if isinstance(n, _ast.Name) and isinstance(n.ctx, (_ast.Store, _ast.Del))}
+
+
+def _loads(node):
+    """names read by an expression (or whole statement), not counting names bound inside it by
+    comprehensions and lambda parameters"""
+    if node is None:
+        return set()
+    out = set()
+
+    def visit(n, bound):
+        if isinstance(n, _ast.Name):
+            if isinstance(n.ctx, _ast.Load) and n.id not in bound:
+                out.add(n.id)
+            return
+        if isinstance(n, (_ast.ListComp, _ast.SetComp, _ast.GeneratorExp, _ast.DictComp)):
+            b = set(bound)
+            for g in n.generators:
+                visit(g.iter, b)
+                b |= _target_names(g.target)
+                for c in g.ifs:
+                    visit(c, b)
+            for part in ([n.key, n.value] if isinstance(n, _ast.DictComp) else [n.elt]):
+                visit(part, b)
+            return
+        if isinstance(n, _ast.Lambda):
+            a = n.args
+            b = set(bound) | {x.arg for x in a.posonlyargs + a.args + a.kwonlyargs} | ({a.vararg.arg} if a.vararg else set()) | ({a.kwarg.arg} if a.kwarg else set())
+            for d in a.defaults + [k for k in a.kw_defaults if k is not None]:
+                visit(d, bound)
+            visit(n.body, b)
+            return
+        for c in _ast.iter_child_nodes(n):
+            visit(c, bound)
+
+    visit(node, set())
+    return out
+
+
+def _exposed(stmts, defined):
+    """-> (names that may be read before they are assigned, names definitely assigned afterwards,
+    whether control can fall through the end of the statement list)"""
+    exp = set()
+    d = set(defined)
+    for s in stmts:
+        if isinstance(s, (_ast.Continue, _ast.Break)):
+            return exp, d, False
+        if isinstance(s, (_ast.Return, _ast.Raise)):
+            exp |= _loads(s) - d
+            return exp, d, False
+        if isinstance(s, _ast.Assign):
+            exp |= _loads(s.value) - d
+            for t in s.targets:
+                if not isinstance(t, _ast.Name):
+                    exp |= _loads(t) - d
+            for t in s.targets:
+                d |= _target_names(t)
+        elif isinstance(s, _ast.AugAssign):
+            exp |= _loads(s.value) - d
+            if isinstance(s.target, _ast.Name):
+                if s.target.id not in d:
+                    exp.add(s.target.id)
+                d.add(s.target.id)
+            else:
+                exp |= _loads(s.target) - d
+        elif isinstance(s, _ast.AnnAssign):
+            exp |= _loads(s.value) - d
+            if s.value is not None:
+                d |= _target_names(s.target)
+        elif isinstance(s, _ast.If):
+            exp |= _loads(s.test) - d
+            e1, d1, f1 = _exposed(s.body, d)
+            e2, d2, f2 = _exposed(s.orelse, d)
+            exp |= e1 | e2
+            if not f1 and not f2:
+                return exp, d, False
+            d = d2 if not f1 else (d1 if not f2 else d1 & d2)
+        elif isinstance(s, (_ast.For, _ast.AsyncFor)):
+            exp |= _loads(s.iter) - d
+            e1, _, _ = _exposed(s.body, d | _target_names(s.target))
+            e2, _, _ = _exposed(s.orelse, d)
+            exp |= e1 | e2
+        elif isinstance(s, _ast.While):
+            exp |= _loads(s.test) - d
+            e1, _, _ = _exposed(s.body, d)
+            e2, _, _ = _exposed(s.orelse, d)
+            exp |= e1 | e2
+        elif isinstance(s, (_ast.With, _ast.AsyncWith)):
+            for it in s.items:
+                exp |= _loads(it.context_expr) - d
+                if it.optional_vars is not None:
+                    d |= _target_names(it.optional_vars)
+            e1, d1, f1 = _exposed(s.body, d)
+            exp |= e1
+            # a context manager may swallow an exception: only what was assigned before the body is certain;
+            # what the body assigns is certain when it ran to its end - keep it (no repo code relies on less)
+            d = d1
+            if not f1:
+                return exp, d, False
+        elif isinstance(s, _ast.Try) or s.__class__.__name__ == "TryStar":
+            e1, d1, _ = _exposed(s.body, d)
+            exp |= e1
+            for h in s.handlers:
+                exp |= _loads(h.type) - d
+                eh, _, _ = _exposed(h.body, d | ({h.name} if h.name else set()))
+                exp |= eh
+            e2, _, _ = _exposed(s.orelse, d1)
+            e3, _, _ = _exposed(s.finalbody, d)
+            exp |= e2 | e3
+        elif isinstance(s, (_ast.FunctionDef, _ast.AsyncFunctionDef, _ast.ClassDef)):
+            exp |= _loads(s) - d - {s.name}
+            d.add(s.name)
+        elif isinstance(s, (_ast.Import, _ast.ImportFrom)):
+            for a in s.names:
+                d.add((a.asname or a.name).split(".")[0])
+        else:  # Expr, Assert, Delete, Match, ...
+            exp |= _loads(s) - d
+    return exp, d, True
+
+
+def carried_names(fornode):
+    assigned = set()
+    for s in fornode.body:
+        for n in _ast.walk(s):
+            if isinstance(n, _ast.Name) and isinstance(n.ctx, _ast.Store):
+                assigned.add(n.id)
+            elif isinstance(n, (_ast.FunctionDef, _ast.ClassDef)):
+                assigned.add(n.name)
+    # names bound only inside comprehensions are not locals of the frame
+    exp, _, _ = _exposed(fornode.body, _target_names(fornode.target))
+    return sorted(exp & assigned)
+
+
+def _container_marks(loc, state):
+    """shallow fingerprints of the mutable containers among a frame's locals that are not cut state"""
+    ids = set()
+    for a in (state or {}).values():
+        ids.add(id(a))
+        if isinstance(a, MArr):
+            ids.add(id(a._data))
+            if a._mask is not None:
+                ids.add(id(a._mask))
+    marks = {}
+    for name, v in loc.items():
+        if id(v) in ids:
+            continue
+        if isinstance(v, list):
+            marks[name] = (v, ("list", [id(x) for x in v]))
+        elif isinstance(v, dict):
+            marks[name] = (v, ("dict", [(id(k), id(x)) for k, x in v.items()]))
+        elif isinstance(v, set):
+            marks[name] = (v, ("set", sorted(id(x) for x in v)))
+        elif isinstance(v, MArr):
+            marks[name] = (v, ("marr", id(v._data._elem), id(v._mask._elem) if v._mask is not None else None))
+        elif isinstance(v, Arr):
+            marks[name] = (v, ("arr", id(v._elem)))
+    return marks
+
+
+def _changed_containers(marks, state):
+    cur_ = _container_marks({n: v for n, (v, _) in marks.items()}, state)
+    return sorted(n for n, (v, m) in marks.items() if n in cur_ and cur_[n][1] != m)
